@@ -1,0 +1,470 @@
+//! Verification hook (feature `verif-hooks`): read-only snapshot of the broker state.
+
+use super::Broker;
+use crate::conn_id::ConnectionId;
+use aldrin_core::ChannelEnd;
+use std::collections::HashSet;
+
+/// Sizes of the broker's internal maps plus the result of a cross-reference walk.
+#[derive(Debug, Clone, Default, PartialEq, Eq)]
+#[allow(missing_docs)]
+pub struct VerifSnapshot {
+    pub conns: usize,
+    pub objs: usize,
+    pub obj_uuids: usize,
+    pub svcs: usize,
+    pub svc_uuids: usize,
+    pub function_calls: usize,
+    pub function_calls_aborted: usize,
+    pub channels: usize,
+    pub bus_listeners: usize,
+    pub introspection: usize,
+    pub query_introspection: usize,
+
+    /// Sums over all connection states.
+    pub conn_objects: usize,
+    pub conn_event_subscriptions: usize,
+    pub conn_all_event_subscriptions: usize,
+    pub conn_all_event_subscriptions_dangling: usize,
+    pub conn_subscriptions: usize,
+    pub conn_senders: usize,
+    pub conn_receivers: usize,
+    pub conn_bus_listeners: usize,
+    pub conn_calls: usize,
+
+    /// Sums over all services.
+    pub svc_function_calls: usize,
+    pub svc_event_subscriptions: usize,
+    pub svc_all_event_subscriptions: usize,
+    pub svc_subscriptions: usize,
+
+    /// Human-readable descriptions of every cross-reference that does not hold.
+    pub inconsistencies: Vec<String>,
+}
+
+impl Broker {
+    pub(super) fn verif_snapshot(&self) -> VerifSnapshot {
+        let mut s = VerifSnapshot {
+            conns: self.conns.len(),
+            objs: self.objs.len(),
+            obj_uuids: self.obj_uuids.len(),
+            svcs: self.svcs.len(),
+            svc_uuids: self.svc_uuids.len(),
+            channels: self.channels.len(),
+            bus_listeners: self.bus_listeners.len(),
+            ..VerifSnapshot::default()
+        };
+
+        let mut bad = Vec::new();
+        let has_conn = |id: &ConnectionId| self.conns.contains_key(id);
+
+        // Objects.
+        for (uuid, obj) in &self.objs {
+            if self.obj_uuids.get(&obj.cookie()) != Some(uuid) {
+                bad.push(format!("object {uuid:?}: cookie not in obj_uuids"));
+            }
+
+            match self.conns.get(obj.conn_id()) {
+                Some(conn) => {
+                    if !conn.objects().any(|c| c == obj.cookie()) {
+                        bad.push(format!("object {uuid:?}: not in owner's object set"));
+                    }
+                }
+
+                None => bad.push(format!("object {uuid:?}: owner is not connected")),
+            }
+
+            for svc_cookie in obj.services() {
+                match self.svc_uuids.get(&svc_cookie) {
+                    Some((obj_id, svc_uuid, _)) => {
+                        if (obj_id.uuid != *uuid) || (obj_id.cookie != obj.cookie()) {
+                            bad.push(format!("service {svc_cookie:?}: wrong object id"));
+                        }
+
+                        if !self.svcs.contains_key(&(*uuid, *svc_uuid)) {
+                            bad.push(format!("service {svc_cookie:?}: not in svcs"));
+                        }
+                    }
+
+                    None => bad.push(format!("object {uuid:?}: dangling service {svc_cookie:?}")),
+                }
+            }
+        }
+
+        for (cookie, uuid) in &self.obj_uuids {
+            match self.objs.get(uuid) {
+                Some(obj) if obj.cookie() == *cookie => {}
+                _ => bad.push(format!("obj_uuids {cookie:?}: no matching object")),
+            }
+        }
+
+        // Services.
+        for ((obj_uuid, svc_uuid), svc) in &self.svcs {
+            match self.svc_uuids.get(&svc.cookie()) {
+                Some((obj_id, uuid, _)) => {
+                    if (obj_id.uuid != *obj_uuid)
+                        || (uuid != svc_uuid)
+                        || (obj_id.cookie != svc.object_cookie())
+                    {
+                        bad.push(format!("service {:?}: svc_uuids mismatch", svc.cookie()));
+                    }
+                }
+
+                None => bad.push(format!("service {:?}: not in svc_uuids", svc.cookie())),
+            }
+
+            match self.objs.get(obj_uuid) {
+                Some(obj) => {
+                    if !obj.services().any(|c| c == svc.cookie()) {
+                        bad.push(format!("service {:?}: not in object's set", svc.cookie()));
+                    }
+                }
+
+                None => bad.push(format!("service {:?}: object is gone", svc.cookie())),
+            }
+
+            if svc.verif_has_empty_event_set() {
+                bad.push(format!("service {:?}: empty event set kept", svc.cookie()));
+            }
+
+            for serial in svc.function_calls() {
+                s.svc_function_calls += 1;
+
+                match self.function_calls.verif_iter().find(|(s, _)| *s == serial) {
+                    Some((_, call)) => {
+                        if (call.callee_obj != *obj_uuid) || (call.callee_svc != *svc_uuid) {
+                            bad.push(format!("call {serial}: callee mismatch"));
+                        }
+                    }
+
+                    None => bad.push(format!("service {:?}: dangling call", svc.cookie())),
+                }
+            }
+
+            for (event, conn_id) in svc.verif_events() {
+                s.svc_event_subscriptions += 1;
+
+                match self.conns.get(conn_id) {
+                    Some(conn) => {
+                        if !conn
+                            .event_subscriptions()
+                            .any(|(c, e)| (c == svc.cookie()) && (e == event))
+                        {
+                            bad.push(format!("event sub {event}: missing in connection"));
+                        }
+                    }
+
+                    None => bad.push(format!("event sub {event}: subscriber is gone")),
+                }
+            }
+
+            for conn_id in svc.verif_all_events() {
+                s.svc_all_event_subscriptions += 1;
+
+                match self.conns.get(conn_id) {
+                    Some(conn) => {
+                        if !conn.all_event_subscriptions().any(|c| c == svc.cookie()) {
+                            bad.push("all-events sub: missing in connection".to_owned());
+                        }
+                    }
+
+                    None => bad.push("all-events sub: subscriber is gone".to_owned()),
+                }
+            }
+
+            for conn_id in svc.verif_subscriptions() {
+                s.svc_subscriptions += 1;
+
+                match self.conns.get(conn_id) {
+                    Some(conn) => {
+                        if !conn.subscriptions().any(|c| c == svc.cookie()) {
+                            bad.push("service sub: missing in connection".to_owned());
+                        }
+                    }
+
+                    None => bad.push("service sub: subscriber is gone".to_owned()),
+                }
+            }
+        }
+
+        for cookie in self.svc_uuids.keys() {
+            if !self.svcs.values().any(|svc| svc.cookie() == *cookie) {
+                bad.push(format!("svc_uuids {cookie:?}: no matching service"));
+            }
+        }
+
+        // Pending function calls.
+        for (serial, call) in self.function_calls.verif_iter() {
+            s.function_calls += 1;
+
+            if call.aborted {
+                s.function_calls_aborted += 1;
+            }
+
+            match self.svcs.get(&(call.callee_obj, call.callee_svc)) {
+                Some(svc) => {
+                    if !svc.function_calls().any(|s| s == serial) {
+                        bad.push(format!("call {serial}: not in service's set"));
+                    }
+                }
+
+                None => bad.push(format!("call {serial}: service is gone")),
+            }
+
+            if !call.aborted {
+                match self.conns.get(&call.caller_conn_id) {
+                    Some(conn) => match conn.call_data(call.caller_serial) {
+                        Some((callee_serial, _)) if callee_serial == serial => {}
+                        _ => bad.push(format!("call {serial}: caller does not know it")),
+                    },
+
+                    None => bad.push(format!("call {serial}: caller is gone, not aborted")),
+                }
+            }
+        }
+
+        // Channels.
+        for (cookie, channel) in &self.channels {
+            let ends = channel.verif_ends();
+
+            if !ends.iter().any(|(state, _, _)| *state == 1) {
+                bad.push(format!("channel {cookie:?}: no claimed end"));
+            }
+
+            for (i, (_, owner, _)) in ends.iter().enumerate() {
+                let Some(owner) = owner else { continue };
+
+                let end = if i == 0 {
+                    ChannelEnd::Sender
+                } else {
+                    ChannelEnd::Receiver
+                };
+
+                match self.conns.get(owner) {
+                    Some(conn) => {
+                        let known = match end {
+                            ChannelEnd::Sender => conn.senders().any(|c| c == *cookie),
+                            ChannelEnd::Receiver => conn.receivers().any(|c| c == *cookie),
+                        };
+
+                        if !known {
+                            bad.push(format!("channel {cookie:?}: {end:?} unknown to owner"));
+                        }
+                    }
+
+                    None => bad.push(format!("channel {cookie:?}: {end:?} owner is gone")),
+                }
+            }
+
+            if (ends[0].0 == 1) && (ends[1].0 == 1) && (ends[0].2 > ends[1].2) {
+                bad.push(format!("channel {cookie:?}: sender credit exceeds receiver's"));
+            }
+        }
+
+        // Bus listeners.
+        for (cookie, bus_listener) in &self.bus_listeners {
+            match self.conns.get(bus_listener.conn_id()) {
+                Some(conn) => {
+                    if !conn.bus_listeners().any(|c| c == *cookie) {
+                        bad.push(format!("bus listener {cookie:?}: unknown to owner"));
+                    }
+                }
+
+                None => bad.push(format!("bus listener {cookie:?}: owner is gone")),
+            }
+
+            let (_, _, all_objects, specific_services) = bus_listener.verif_flags();
+            if (all_objects, specific_services) != bus_listener.verif_flags_expected() {
+                bad.push(format!("bus listener {cookie:?}: cached filter flags are stale"));
+            }
+        }
+
+        // Connections.
+        for (id, conn) in &self.conns {
+            for cookie in conn.objects() {
+                s.conn_objects += 1;
+
+                let owned = self
+                    .obj_uuids
+                    .get(&cookie)
+                    .and_then(|uuid| self.objs.get(uuid))
+                    .map(|obj| obj.conn_id() == id)
+                    .unwrap_or(false);
+
+                if !owned {
+                    bad.push(format!("conn {id:?}: object {cookie:?} not owned"));
+                }
+            }
+
+            for (svc_cookie, event) in conn.event_subscriptions() {
+                s.conn_event_subscriptions += 1;
+
+                let known = self
+                    .svc_uuids
+                    .get(&svc_cookie)
+                    .and_then(|(obj_id, svc_uuid, _)| self.svcs.get(&(obj_id.uuid, *svc_uuid)))
+                    .map(|svc| svc.verif_events().any(|(e, c)| (e == event) && (c == id)))
+                    .unwrap_or(false);
+
+                if !known {
+                    bad.push(format!("conn {id:?}: stale event subscription {event}"));
+                }
+            }
+
+            for svc_cookie in conn.all_event_subscriptions() {
+                s.conn_all_event_subscriptions += 1;
+
+                // A destroyed service is not removed from the all-events set of connections that
+                // have no other subscription to it (cookies are never reused, so such an entry
+                // is inert); it is reported as a count, not as an inconsistency.
+                match self
+                    .svc_uuids
+                    .get(&svc_cookie)
+                    .and_then(|(obj_id, svc_uuid, _)| self.svcs.get(&(obj_id.uuid, *svc_uuid)))
+                {
+                    Some(svc) => {
+                        if !svc.verif_all_events().any(|c| c == id) {
+                            bad.push(format!("conn {id:?}: stale all-events subscription"));
+                        }
+                    }
+
+                    None => s.conn_all_event_subscriptions_dangling += 1,
+                }
+            }
+
+            for svc_cookie in conn.subscriptions() {
+                s.conn_subscriptions += 1;
+
+                let known = self
+                    .svc_uuids
+                    .get(&svc_cookie)
+                    .and_then(|(obj_id, svc_uuid, _)| self.svcs.get(&(obj_id.uuid, *svc_uuid)))
+                    .map(|svc| svc.verif_subscriptions().any(|c| c == id))
+                    .unwrap_or(false);
+
+                if !known {
+                    bad.push(format!("conn {id:?}: stale service subscription"));
+                }
+            }
+
+            for cookie in conn.senders() {
+                s.conn_senders += 1;
+
+                let owned = self
+                    .channels
+                    .get(&cookie)
+                    .map(|channel| channel.verif_ends()[0].1 == Some(id))
+                    .unwrap_or(false);
+
+                if !owned {
+                    bad.push(format!("conn {id:?}: stale sender {cookie:?}"));
+                }
+            }
+
+            for cookie in conn.receivers() {
+                s.conn_receivers += 1;
+
+                let owned = self
+                    .channels
+                    .get(&cookie)
+                    .map(|channel| channel.verif_ends()[1].1 == Some(id))
+                    .unwrap_or(false);
+
+                if !owned {
+                    bad.push(format!("conn {id:?}: stale receiver {cookie:?}"));
+                }
+            }
+
+            for cookie in conn.bus_listeners() {
+                s.conn_bus_listeners += 1;
+
+                let owned = self
+                    .bus_listeners
+                    .get(&cookie)
+                    .map(|bus_listener| bus_listener.conn_id() == id)
+                    .unwrap_or(false);
+
+                if !owned {
+                    bad.push(format!("conn {id:?}: stale bus listener {cookie:?}"));
+                }
+            }
+
+            for (callee_serial, _) in conn.calls() {
+                s.conn_calls += 1;
+
+                let known = self
+                    .function_calls
+                    .verif_iter()
+                    .any(|(serial, call)| {
+                        (serial == callee_serial) && !call.aborted && (call.caller_conn_id == *id)
+                    });
+
+                if !known {
+                    bad.push(format!("conn {id:?}: stale call {callee_serial}"));
+                }
+            }
+        }
+
+        #[cfg(feature = "introspection")]
+        {
+            #[allow(clippy::mutable_key_type)]
+            let mut queried = HashSet::new();
+
+            for (type_id, entry) in self.introspection.verif_entries() {
+                s.introspection += 1;
+
+                let (conn_ids, idxs) = entry.verif_conn_ids();
+
+                if conn_ids.is_empty() || (conn_ids.len() != idxs.len()) {
+                    bad.push(format!("introspection {type_id:?}: index out of sync"));
+                }
+
+                for (idx, conn_id) in conn_ids.iter().enumerate() {
+                    if idxs.get(conn_id) != Some(&idx) {
+                        bad.push(format!("introspection {type_id:?}: wrong index"));
+                    }
+
+                    if !has_conn(conn_id) {
+                        bad.push(format!("introspection {type_id:?}: registrant is gone"));
+                    }
+                }
+
+                for query in entry.verif_queries() {
+                    if !has_conn(&query.conn_id) {
+                        bad.push(format!("introspection {type_id:?}: query of gone conn"));
+                    }
+                }
+
+                if let Some(serial) = entry.queried() {
+                    queried.insert(serial);
+
+                    match self
+                        .query_introspection
+                        .verif_iter()
+                        .find(|(s, _)| *s == serial)
+                    {
+                        Some((_, id)) if id == type_id => {}
+                        _ => bad.push(format!("introspection {type_id:?}: query not tracked")),
+                    }
+                }
+            }
+
+            for (serial, _) in self.query_introspection.verif_iter() {
+                s.query_introspection += 1;
+
+                if !queried.contains(&serial) {
+                    bad.push(format!("query_introspection {serial}: no entry is waiting"));
+                }
+            }
+        }
+
+        #[cfg(not(feature = "introspection"))]
+        {
+            let _ = &has_conn;
+            let _: HashSet<u32> = HashSet::new();
+        }
+
+        s.inconsistencies = bad;
+        s
+    }
+}
